@@ -4,7 +4,7 @@ usage: mutate.py <ID> <file> <find> <replace> [--tier quick] [--test <pkg> (run 
 Mutants are catalogued in mutants/<ID>.json: [{"name","file","find","replace","expect":"caught"}]
        mutate.py --catalog <ID> [name]   runs every mutant of the catalogue (or one)."""
 import json, os, subprocess, sys
-REPO="/repo"; VERIF=os.path.dirname(os.path.abspath(__file__))
+REPO=os.environ.get("VERIF_REPO","/repo"); VERIF=os.path.dirname(os.path.abspath(__file__))
 def run_one(pid, m, tier="quick", run_tests=False):
     path=os.path.join(REPO,m["file"]); src=open(path).read()
     if src.count(m["find"])!=1:
